@@ -146,6 +146,33 @@ Proof.
     exists c. rewrite (rx_only_findw h0 h r R). repeat split; auto; cbn; destruct R as [R1 [R2 [R3 [R4 [R5 R6]]]]]; congruence.
 Qed.
 
+(* _scrollrectset: the walk towards the root, past the elder siblings at every level *)
+Lemma sib_walk_spec : forall fuel h k l a, chain h k l ->
+  match sib_walk fuel k a h with Ok _ h' => h' = h | Fault _ _ => False | NoFuel => True end.
+Proof.
+  induction fuel as [|f IH]; intros h k l a Hc; [exact I|]. cbn [sib_walk]. destruct Hc as [|s c l Hf Hc]; [reflexivity|].
+  destruct (Pos.eqb s a); [reflexivity|]. unfold bind. rewrite (getw_run h s c Hf). apply (IH h _ l a Hc).
+Qed.
+Lemma scroll_up_spec : forall D fuel a h, hinv D h -> anc h a root ->
+  match scroll_up fuel a h with Ok _ h' => h' = h | Fault _ _ => False | NoFuel => True end.
+Proof.
+  induction fuel as [|f IH]; intros a h HI Ha; [exact I|]. cbn [scroll_up].
+  destruct (live_some h a (anc_live_l h a root Ha)) as [c Hc]. unfold bind at 1. rewrite (getw_run h a c Hc).
+  destruct (negb (w_visible c)); [reflexivity|]. destruct (w_parent c) as [p|] eqn:Hp.
+  - destruct (hinv_parent_live D h a c p HI Hc Hp) as [cp Hcp]. unfold bind at 1. rewrite (getw_run h p cp Hcp).
+    destruct (hi_kids D h HI p cp Hcp) as (l & Hch & _). unfold bind at 1.
+    pose proof (sib_walk_spec f h _ l a Hch) as Hs. destruct (sib_walk f (w_first cp) a h) as [u h'| |]; [|contradiction|exact I].
+    subst h'. apply IH; [exact HI|]. inversion Ha as [a' c' Hf' | a' c' p0 b Hf' Hp' Hap]; subst.
+    + rewrite Hc in Hf'. inversion Hf'; subst c'. rewrite (hi_root_parent D h HI c Hc) in Hp. discriminate.
+    + rewrite Hc in Hf'. inversion Hf'; subst c'. rewrite Hp in Hp'. inversion Hp'; subst p0. exact Hap.
+  - assert (Ea : root = a).
+    { inversion Ha as [a' c' Hf' | a' c' p0 b Hf' Hp' Hap]; subst; [reflexivity|].
+      rewrite Hc in Hf'. inversion Hf'; subst c'. congruence. }
+    subst a.
+    assert (Hir : w_isroot c = true) by (rewrite (hi_isroot D h HI root c Hc); apply Pos.eqb_refl).
+    unfold bind. unfold getr. unfold bind. rewrite (getw_run h root c Hc). rewrite Hir. reflexivity.
+Qed.
+
 (* _focus_chain_changed: the walk towards the root, then the restore request *)
 Lemma focus_chain_changed_spec : forall D fuel w h0,
   hoare (fun h => h = h0 /\ hinv D h0 /\ (forall a, w = Some a -> findw h0 a <> None))
